@@ -144,6 +144,9 @@ func registerIntrinsics(P *Program) {
 		a, b := args[0].(StringVal), args[1].(SliceVal)
 		return m.st.Bool(a.P.ID != 0 && a.P.ID == b.P.ID)
 	}
+	I[vrtPkg+"Thorough"] = func(m *Machine, fn *ssa.Function, args []Value) Value {
+		return m.st.Bool(m.P.opts.Tier == "thorough")
+	}
 	I[vrtPkg+"Symbolic"] = func(m *Machine, fn *ssa.Function, args []Value) Value {
 		return m.st.True
 	}
